@@ -1539,8 +1539,8 @@ class Machine:
                     self._report('C06', 'NO-LIST-ALIAS', name, 'cores_list', 'result shares its cores list with the object created at step %s' % sid)
                     alias = True
                     break
-            if alias:
-                continue
+            # an aliased result is reported (C06) and still admitted: what the shared list leads to later (an in-place
+            # operation on one object silently changing the other) is then visible to the C05 oracle as well
             try:
                 shas.append(gen.cores_sha(r.cores))
             except Exception:
